@@ -39,6 +39,26 @@ func openPlain(dir string) (*comet.PersistentHybridIndex, error) {
 	return comet.OpenPersistentHybridIndex(cfg)
 }
 
+// openAny opens with a configuration from the corners of what the struct accepts: thresholds and limits
+// that are zero, negative or huge, templates present or missing (the vector one always present: handles are used with vectors). The implementation may refuse such a
+// configuration; a refusal must leave no lock behind.
+func openAny(r *rand.Rand, dir string) (*comet.PersistentHybridIndex, error) {
+	cfg := comet.DefaultStorageConfig(dir)
+	cfg.FlushThreshold = []int64{1 << 60, 0, -1, 1}[r.Intn(4)]
+	cfg.MemtableSizeLimit = []int64{1 << 20, 0, -1, 1}[r.Intn(4)]
+	cfg.CompactionInterval = []time.Duration{time.Hour, time.Minute, 24 * 365 * time.Hour}[r.Intn(3)]
+	cfg.CompactionThreshold = []int{2, 0, -1, 1, 1 << 30}[r.Intn(5)]
+	v, _ := comet.NewFlatIndex(2, comet.Euclidean) // the uses of a handle add and search 2-dimensional vectors
+	cfg.VectorIndexTemplate = v
+	if r.Intn(3) == 0 {
+		cfg.TextIndexTemplate = comet.NewBM25SearchIndex()
+	}
+	if r.Intn(3) == 0 {
+		cfg.MetadataIndexTemplate = comet.NewRoaringMetadataIndex()
+	}
+	return comet.OpenPersistentHybridIndex(cfg)
+}
+
 // dirNames lists a directory (sorted); used to see that a FAILED open left it as it was.
 func dirNames(dir string) string {
 	ents, _ := os.ReadDir(dir)
@@ -143,6 +163,30 @@ func genC17(r *rand.Rand, t *Trace, thorough bool) {
 		for step := 0; step < nops; step++ {
 			x := r.Intn(100)
 			switch {
+			case x < 30 && r.Intn(3) == 0: // open with a corner configuration (it may be refused)
+				h := nextH
+				nextH++
+				before := dirNames(dir)
+				var st *comet.PersistentHybridIndex
+				var err error
+				pan := catchPanic(func() { st, err = openAny(r, dir) })
+				code := lockCode(err)
+				if pan {
+					code = 12
+				}
+				if err == nil && !pan {
+					handles[h] = st
+					builders[h] = st.NewSearch().WithVector([]float32{1, 2}).WithK(3)
+				} else if after := dirNames(dir); after != before {
+					ops = append(ops, func(c *Case) { c.N(9).N(h) })
+					t.Stat("lock.failed_open_modified_directory")
+				}
+				la := lockExists(dir)
+				ops = append(ops, func(c *Case) { c.N(10).N(h).N(code).B(la) })
+				t.Stat("lock.open_corner_config")
+				if code != 0 {
+					t.Stat("lock.open_corner_config_refused")
+				}
 			case x < 30: // open
 				h := nextH
 				nextH++
